@@ -14,7 +14,7 @@ impl Property for C01 {
         "C01"
     }
     fn rule(&self) -> String {
-        "documents generated from a block/inline grammar with unique word tokens and randomised presentation, x both refs_extension settings x three doors; oracle: content fingerprint (block kinds and nesting, words per block, code bodies and info strings, link/image kinds and resolved destinations, list item counts, table shape and cells, inline style spans, front matter) of an independent pulldown-cmark scan of the input equals that of the output, under the tolerances of DESIGN.md 4.3; non-trivial = >= 3 blocks of >= 2 kinds and at least one of container nesting, table, code, multi-line paragraph, link".into()
+        "documents generated from a block/inline grammar with unique word tokens and randomised presentation, x both refs_extension settings x four doors (from_markdown/to_markdown, import/export, update_key over an older version, textDocument/formatting of the served note); oracle: content fingerprint (block kinds and nesting, words per block, code bodies and info strings, link/image kinds and resolved destinations, list item counts, table shape and cells, inline style spans, front matter) of an independent pulldown-cmark scan of the input equals that of the output, under the tolerances of DESIGN.md 4.3; non-trivial = >= 3 blocks of >= 2 kinds and at least one of container nesting, table, code, multi-line paragraph, link".into()
     }
     fn assumptions(&self) -> Vec<String> {
         vec![
@@ -33,7 +33,7 @@ impl Property for C01 {
         vec!["item_first_list", "item_first_heading", "empty_item"]
     }
     fn strategy(&self, features: &Features, _tier: Tier) -> BoxedStrategy<DocCase> {
-        doc_case(features, 7, 3)
+        doc_case(features, 7, 4)
     }
     fn check(&self, case: &DocCase, stats: &mut Stats) -> Verdict {
         let out = super::c02::format(case, &case.text);
